@@ -21,11 +21,11 @@ type c13map struct {
 	m base.Manifest
 }
 
-func (c13map) IsValid([]byte) error                                    { return nil }
-func (m c13map) Manifest() base.Manifest                               { return m.m }
-func (c13map) Item(base.BlockItemType) (base.BlockMapItem, bool)       { return nil, false }
-func (c13map) Items(func(base.BlockMapItem) bool)                      {}
-func (c13map) Writer() interface{}                                     { return nil }
+func (c13map) IsValid([]byte) error                              { return nil }
+func (m c13map) Manifest() base.Manifest                         { return m.m }
+func (c13map) Item(base.BlockItemType) (base.BlockMapItem, bool) { return nil, false }
+func (c13map) Items(func(base.BlockMapItem) bool)                {}
+func (c13map) Writer() interface{}                               { return nil }
 
 type c13state struct {
 	st    base.State
